@@ -131,7 +131,8 @@ the decoder as one scalar token with the same text is classified as that string 
 theorem decode_str_of_not_quoted (lx : Lex) (s : Bytes)
     (hsingle : lx.single = true) (hsame : lx.same = true)
     (hty : lx.ty = .str ∨ lx.ty.nonString = true)
-    (hstart : ∀ c t, s = c :: t → nonStringStarts.contains c = false → lx.ty.nonString = false)
+    (hstart : ∀ c t, s = c :: t → nonStringStarts.contains c = false → lx.same = true →
+      lx.ty.nonString = false)
     (hq : shouldQuote lx s = false) : decodeScalar lx.ty s = .str s := by
   cases s with
   | nil => simp [shouldQuote] at hq
@@ -161,7 +162,7 @@ theorem decode_str_of_not_quoted (lx : Lex) (s : Bytes)
         · exfalso
           cases hlt : lx.ty <;> rw [hlt] at hd hty <;> simp_all [Tok.nonString]
       · have hc' : nonStringStarts.contains c = false := by simpa using hc
-        have hns := hstart c t rfl hc'
+        have hns := hstart c t rfl hc' hsame
         have hstr : lx.ty = .str := by
           rcases hty with hty | hty
           · exact hty
